@@ -49,6 +49,30 @@ func NewRepo(parent, name string) (*Repo, error) {
 	return r, nil
 }
 
+// NewRepoFast initialises a repository and writes its local config file directly
+// (user identity plus the given extra YAML, e.g. a remote) instead of running
+// `wrgl config set` twice.
+func NewRepoFast(parent, name, extraYAML string) (*Repo, error) {
+	root := filepath.Join(parent, name)
+	if err := os.MkdirAll(root, 0755); err != nil {
+		return nil, err
+	}
+	r := &Repo{Root: root, WrglDir: filepath.Join(root, ".wrgl")}
+	rd, err := local.NewRepoDir(r.WrglDir, "")
+	if err != nil {
+		return nil, err
+	}
+	if err := rd.Init(); err != nil {
+		return nil, err
+	}
+	rd.Close()
+	cfg := "user:\n  email: verif@example.invalid\n  name: Verif\n" + extraYAML
+	if err := os.WriteFile(filepath.Join(r.WrglDir, "config.yaml"), []byte(cfg), 0644); err != nil {
+		return nil, err
+	}
+	return r, nil
+}
+
 // Run executes `wrgl <args>` and returns what it printed.
 func (r *Repo) Run(stdin io.Reader, args ...string) (out string, err error) {
 	mu.Lock()
